@@ -32,6 +32,7 @@ import (
 	"testing"
 
 	"github.com/mattn/anko/ast"
+	"github.com/mattn/anko/core"
 	"github.com/mattn/anko/env"
 	_ "github.com/mattn/anko/packages"
 	"github.com/mattn/anko/parser"
@@ -124,6 +125,13 @@ var templates = []func(u string) string{
 	},
 	func(u string) string {
 		return "func lit" + u + "() { return [[0, 0], [\"x\"]] }\nq" + u + " = lit" + u + "()\nq" + u + "[0][1] = base\nq" + u + "[1][0] = \"y\" + base\nrec(lit" + u + "())\nrec(q" + u + ")"
+	},
+	func(u string) string {
+		// the core builtins (each environment gets its own through core.Import) and a few more bundled packages
+		return "rec(keys({\"a\": base}))\nrec(range(3))\nrec(range(1, 7, 2))\nrec(typeOf(base))\nrec(kindOf(\"s\"))\nrec(toString(base))\nrec(toInt(\"4\") + base)\nrec(toFloat(\"1.5\"))\nrec(toBool(\"true\"))\nrec(defined(\"base\"))\nrec(defined(\"nope" + u + "\"))\nzz" + u + " = 1\nrec(defined(\"zz" + u + "\"))\nrec(toIntSlice([1, base]))\nrec(toStringSlice([\"a\"]))"
+	},
+	func(u string) string {
+		return "m" + u + " = import(\"math\")\nrec(m" + u + ".Abs(0 - base))\nsc" + u + " = import(\"strconv\")\nrec(sc" + u + ".Itoa(base))\nst" + u + " = import(\"strings\")\nrec(st" + u + ".Join([\"a\", \"b\"], \"-\"))\nrec(st" + u + ".Repeat(\"x\", 3))\nf" + u + " = import(\"fmt\")\nrec(f" + u + ".Sprintf(\"%v-%v\", base, ow))\nso" + u + " = import(\"sort\")\nl" + u + " = [3, 1, 2]\nso" + u + ".Slice(l" + u + ", func(i, j) { return l" + u + "[i] < l" + u + "[j] })\nrec(l" + u + ")"
 	},
 	func(u string) string {
 		// one operator node, operands of a different kind in each environment
@@ -311,6 +319,7 @@ func render(v interface{}) string {
 // mkEnv builds configuration i: the same names bound to different things.
 func mkEnv(i int, out *runOut, mu *sync.Mutex) *env.Env {
 	e := env.NewEnv()
+	core.Import(e)
 	e.Define("base", int64(10*(i+1)))
 	e.Define("ow", i%2 == 0)
 	e.Define("rec", func(v interface{}) {
